@@ -269,6 +269,7 @@ def replay_backtracking(viol):
 
 # ---------------------------------------------------------------- C06
 IDX_PROGRAM = """
+:- use_module(library(lists)).
 p2(1,a). p2(2,b). p2(_,c). p2(2,d). p2(3,e).
 p(2). p(foo). p(7).
 big(36028797018963968). big(bar).
@@ -366,11 +367,12 @@ def replay_bignum_arms(viol):
 
 
 IDX2_PROGRAM = """
+:- use_module(library(lists)).
 show(X) :- write(X), nl.
 % one predicate with a first argument of every kind, so that switch_on_term is emitted
-k(a, atom). k(1, int). k(2.5, float). k(36028797018963968, big). k("str", string).
+k(a, atom). k(1, int). k(2.5, float). k(36028797018963968, big).
 k([x|_], list). k(f(_), struct). k(g(_,_), struct2). k([], nil). k('.', dotatom).
-k(R, rat) :- R == 0.5r, !.
+k("st", string).
 """
 
 
@@ -379,8 +381,9 @@ def replay_index_routing(diffs):
              ("findall(K, k(1, K), L), show(L)", "[int]"),
              ("findall(K, k(2.5, K), L), show(L)", "[float]"),
              ("X is 5.0/2, findall(K, k(X, K), L), show(L)", "[float]"),
-             ("findall(K, k(\"str\", K), L), show(L)", "[string]"),
+             ("findall(K, k(\"st\", K), L), show(L)", "[string]"),
              ("findall(K, k([x,y], K), L), show(L)", "[list]"),
+             ("findall(K, k([s,t], K), L), show(L)", "[string]"),
              ("findall(K, k(f(1), K), L), show(L)", "[struct]"),
              ("findall(K, k(g(1,2), K), L), show(L)", "[struct2]"),
              ("findall(K, k([], K), L), show(L)", "[nil]"),
